@@ -212,7 +212,7 @@ class Gen:
 
 # ---------------------------------------------------------------------------------------------- typed family
 
-ARITY = {"copy": 1, "cref": 1, "box": 1, "same": 0, "spc": 0, "blk": 0, "dig": 0, "eps": 0, "fail": 0, "any": 0, "lit": 0, "cset": 0, "compl": 0, "str": 0, "uint": 0, "int": 0, "float": 0,
+ARITY = {"cif": 1, "conv": 1, "rec": 1, "ref": 0, "copy": 1, "cref": 1, "box": 1, "same": 0, "spc": 0, "blk": 0, "dig": 0, "eps": 0, "fail": 0, "any": 0, "lit": 0, "cset": 0, "compl": 0, "str": 0, "uint": 0, "int": 0, "float": 0,
          "seq": 2, "alt": 2, "rep": 1, "plus": 1, "opt": 1, "not": 1, "fatal": 1, "lex": 1, "ign": 1, "named": 1,
          "sep": 2, "list": 4, "con": 1, "ast": 1, "cst": 1}
 
@@ -576,8 +576,12 @@ def fmt_stats(stats):
 
 def sys_nullable(node):
     n, _, k = node
-    if n in ("eps", "rep", "opt", "not"):
+    if n in ("eps", "rep", "opt", "not", "sep", "ref"):
         return True
+    if n in ("lex", "named", "ign", "cif", "conv", "con", "cst", "rec"):
+        return sys_nullable(k[0])
+    if n == "list":
+        return sys_nullable(k[0]) and sys_nullable(k[3])
     if n == "str":
         return node[1] == ""
     if n == "seq":
@@ -592,6 +596,10 @@ def sys_nullable(node):
 def sys_wf(node):
     n, _, k = node
     if n in ("rep", "plus") and sys_nullable(k[0]):
+        return False
+    if n == "sep" and sys_nullable(k[0]) and sys_nullable(k[1]):
+        return False
+    if n == "list" and sys_nullable(k[1]) and sys_nullable(k[2]):
         return False
     return all(sys_wf(x) for x in k)
 
@@ -651,9 +659,36 @@ def interplay_terms():
                 out.append(f"alt.{x}.seq.{y}.fatal.{z}")
                 out.append(f"alt.opt.seq.{x}.fatal.{y}.{z}")
                 out.append(f"rep.alt.seq.{x}.fatal.{y}.{z}")
+    # lexeme at every place relative to a sequence / repetition (the skipper is off inside, on again outside)
+    for x in cons:
+        for y in lv:
+            out += [f"lex.seq.{x}.{y}", f"seq.lex.seq.{x}.{y}.lit:a", f"seq.{y}.lex.seq.{x}.{y}", f"rep.lex.seq.{x}.{y}",
+                    f"lex.rep.seq.{x}.{y}", f"seq.lex.rep.{x}.{y}", f"seq.{x}.lex.rep.{y}", f"alt.lex.seq.{x}.{y}.seq.{x}.{y}",
+                    f"lex.seq.{x}.lex.{y}", f"opt.lex.seq.{x}.fatal.{y}"]
+    # the derived combinators: separator / list / plus with consuming and with failing-late parts, and a sibling behind them
+    for x in cons:
+        for y in cons[:4]:
+            out += [f"sep.{x}.{y}", f"seq.sep.{x}.{y}.lit:b", f"seq.sep.{x}.{y}.any", f"seq.plus.{x}.{y}", f"alt.plus.seq.{x}.{y}.{x}"]
+    for x in cons[:4]:
+        for sp in ("lit:b", "str:ab", "any"):
+            out += [f"list.lit:a.{x}.{sp}.lit:b", f"list.lit:a.{x}.{sp}.lit:a", f"seq.list.any.{x}.{sp}.lit:a.any",
+                    f"list.str:ab.{x}.{sp}.str:ab", f"rep.list.lit:a.{x}.{sp}.lit:b", f"list.lit:a.{x}.{sp}.fatal.lit:b",
+                    f"list.lit:a.fatal.{x}.{sp}.lit:b"]
+    # named keeps errors and the fatal flag; convert_if: a non-fatal and a FATAL failure produced by the user function
+    for x in lv:
+        for y in lv:
+            out += [f"alt.named.fatal.{x}.{y}", f"alt.named.seq.{x}.fatal.{y}.any", f"opt.named.seq.{x}.fatal.{y}", f"rep.named.seq.{x}.{y}",
+                    f"not.named.fatal.{x}", f"alt.seq.{x}.cif:2.any.{y}", f"opt.seq.{x}.cif:2.any", f"rep.seq.{x}.cif:2.any",
+                    f"seq.not.seq.{x}.cif:2.any.{y}", f"alt.seq.{x}.cif:0.any.{y}", f"rep.cif:0.any", f"alt.cif:1.rep.{x}.{y}",
+                    f"seq.cst:i7.{x}.con:21.{y}", f"alt.ast:31.seq.{x}.{y}.{y}"]
+    # recursion: right recursion, nesting a^n b^n, mutual recursion, recursion through not_ / optional / repetition, make_recursive
+    out += ["alt.seq.lit:a.ref:0.eps", "seq.lit:a.opt.ref:0", "alt.seq.lit:a.seq.ref:0.lit:b.eps", "alt.seq.lit:a.seq.ref:0.lit:b.str:ab",
+            "seq.lit:a.ref:1;alt.seq.lit:b.ref:0.eps", "seq.any.rep.ref:1;seq.lit:b.opt.ref:0", "seq.lit:a.rec.opt.ref:0",
+            "alt.seq.lit:a.seq.not.ref:0.any.lit:b", "seq.lit:a.alt.ref:0.fatal.lit:b", "seq.lit:a.rep.seq.lit:b.ref:0",
+            "list.lit:a.ref:0.lit:b.lit:a", "seq.str:ab.sep.ref:0.lit:a", "alt.seq.lit:a.ref:1.lit:b;alt.seq.lit:b.ref:2.lit:a;opt.seq.any.ref:0"]
     seen, res = set(), []
     for g in out:
-        if g not in seen and sys_wf(parse_prefix(g)):
+        if g not in seen and all(sys_wf(parse_prefix(r)) for r in g.split(";")):
             seen.add(g)
             res.append(g)
     return res
